@@ -8,45 +8,120 @@
 mod fmt;
 mod rms_driver;
 
+use dasp_envelope::detect::Peak;
 use dasp_envelope::{Detect, Detector};
+use dasp_frame::Frame;
 use dasp_peak as peak;
-use dasp_ring_buffer::Fixed;
+use dasp_peak::Rectifier;
+use dasp_ring_buffer::{Fixed, Slice, SliceMut};
 use dasp_rms::Rms;
 use dasp_sample::types::{I24, I48, U24, U48};
-use dasp_signal::envelope::SignalEnvelope;
+use dasp_signal::envelope::{DetectEnvelope, SignalEnvelope};
 use dasp_signal::rms::SignalRms;
 use dasp_signal::{self as signal, Signal};
 use fmt::*;
 use hx_common::*;
-use rms_driver::rms_direct;
+use rms_driver::*;
 use serde_json::{json, Value};
+use std::cell::RefCell;
+use std::collections::VecDeque;
+use std::rc::Rc;
 
 #[global_allocator]
 static A: CountingAlloc = CountingAlloc;
 
+// ---------------------------------------------------------------------------- source signals of the adaptors
+
+/// The signal an adaptor (`.rms(..)`, `.detect_envelope(..)`) is put on.
+///  * `Iter` (cfg.src = "iter"): dasp's `signal::from_iter` over the frames of the execution's feeding events,
+///    possibly cut short (cfg.srclen) so that the adaptor reads past its end;
+///  * `Feed` (cfg.src = "gen"): yields the frame the driver queued just before the call.  Every clone of
+///    it reads the same queue, so an adaptor and its clones can be continued with DIFFERENT inputs
+///    (a cloned `from_iter` signal would replay the original's remaining frames).
+#[derive(Clone)]
+enum Source<F: Frame> {
+    Iter(signal::FromIterator<std::vec::IntoIter<F>>),
+    Feed(Rc<RefCell<VecDeque<F>>>),
+}
+impl<F: Frame> Signal for Source<F> {
+    type Frame = F;
+    fn next(&mut self) -> F {
+        match self {
+            Source::Iter(s) => s.next(),
+            Source::Feed(q) => q.borrow_mut().pop_front().expect("a frame is queued before every call"),
+        }
+    }
+    fn is_exhausted(&self) -> bool {
+        match self {
+            Source::Iter(s) => s.is_exhausted(),
+            Source::Feed(_) => false,
+        }
+    }
+}
+type Queue<F> = Rc<RefCell<VecDeque<F>>>;
+fn new_queue<F>() -> Queue<F> {
+    Rc::new(RefCell::new(VecDeque::with_capacity(8)))
+}
+/// exactly the frame `x` is waiting in the queue (no allocation: the capacity is reserved)
+fn offer<F>(q: &Queue<F>, x: F) {
+    let mut q = q.borrow_mut();
+    q.clear();
+    q.push_back(x);
+}
+/// frames an `Iter` source of instance 0 yields: those of its feeding events up to the point where the
+/// adaptor is taken apart
+fn iter_frames<F>(ops: &[Value], parts_ev: &str, dec: impl Fn(&Value) -> F) -> Vec<F> {
+    let mut v = Vec::new();
+    for op in ops {
+        if inst(op, "i") != 0 {
+            continue;
+        }
+        if op["ev"] == parts_ev {
+            break;
+        }
+        if let Some(x) = op["a"].get("x") {
+            v.push(dec(x));
+        }
+    }
+    v
+}
+
 // ---------------------------------------------------------------------------- RMS through the signal adaptor
 
-fn rms_signal<S, const N: usize>(out: &mut Out, reset: &Value, ops: &[Value], build: &str)
+enum RmsInst<S: Fmt, St, const N: usize>
+where
+    S::Float: Fmt,
+    St: Slice<Element = FF<S, N>> + SliceMut,
+{
+    Sig(signal::rms::Rms<Source<[S; N]>, St>),
+    Direct(Rms<[S; N], St>),
+}
+
+/// Executions that start on the `dasp_signal::rms` adaptor.  Instances: see rms_driver.rs; here an instance
+/// is the adaptor (`sig_next`, `sig_next_squared`, `sig_clone`, `sig_move`) until `sig_parts` takes it apart
+/// (`into_parts`), after which the same instance goes on as the bare detector (`next` ... `rms_clone`).
+fn rms_signal<S, St, const N: usize>(out: &mut Out, reset: &Value, ops: &[Value], build: &str, make: impl Fn(usize) -> Fixed<St>)
 where
     S: Fmt,
     S::Float: Fmt,
+    St: Slice<Element = FF<S, N>> + SliceMut + Clone,
 {
-    let mut cfg = reset["cfg"].clone();
-    cfg["build"] = json!(build);
+    let cfg = rms_cfg(reset, build, "signal");
     let n = cfg["n"].as_u64().unwrap() as usize;
-    // the source signal yields the frames of the sig_* events in order
-    // (cfg.srclen, when present, cuts the source short: later calls read past its end, where a finite
+    let gen = cfg["src"] == "gen";
+    let queue: Queue<[S; N]> = new_queue();
+    // (cfg.srclen, when present, cuts an Iter source short: later calls read past its end, where a finite
     // signal yields equilibrium -- the generator puts equilibrium frames into those events)
-    let mut frames: Vec<[S; N]> = ops.iter().map(|op| dec_frame::<S, N>(&op["a"]["x"])).collect();
-    let logged: Vec<Value> = frames.iter().map(|f| json!({"x": enc_frame(f)})).collect();
+    let mut frames: Vec<[S; N]> = iter_frames(ops, "sig_parts", |v| dec_frame::<S, N>(v));
     if let Some(sl) = cfg["srclen"].as_u64() {
         frames.truncate(sl as usize);
     }
-    let built = catch(move || {
-        let window: Vec<[S::Float; N]> = vec![<[S::Float; N] as dasp_frame::Frame>::EQUILIBRIUM; n];
-        signal::from_iter(frames.into_iter()).rms(Fixed::from(window))
+    let q0 = queue.clone();
+    let built = catch(|| {
+        let src = if gen { Source::Feed(q0) } else { Source::Iter(signal::from_iter(frames.into_iter())) };
+        src.rms(make(n))
     });
-    let mut sig = match built {
+    let sig = match built {
         None => {
             out.line(&json!({"ev":"reset","comp":"rms","cfg":cfg,"r":r_panic(),"o":{"ok":false,"wf":0,"cur":[]}}));
             return;
@@ -55,23 +130,95 @@ where
     };
     // the adaptor exposes neither window_frames nor current; a second, untouched detector of the same
     // construction provides the header observations
-    let fresh = Rms::<[S; N], Vec<[S::Float; N]>>::new(Fixed::from(vec![<[S::Float; N] as dasp_frame::Frame>::EQUILIBRIUM; n]));
+    let fresh = Rms::<[S; N], St>::new(make(n));
     out.line(&json!({"ev":"reset","comp":"rms","cfg":cfg,"r":r_unit(),
                      "o":{"ok":true,"wf":fresh.window_frames(),"cur":enc_frame(&fresh.current())}}));
-    for (op, a) in ops.iter().zip(logged.into_iter()) {
+    let mut insts: Vec<Option<RmsInst<S, St, N>>> = vec![Some(RmsInst::Sig(sig))];
+    for op in ops {
         let ev = op["ev"].as_str().unwrap();
-        let (r, h, _) = measured(|| {
-            catch(|| match ev {
-                "sig_next" => sig.next(),
-                "sig_next_squared" => sig.next_squared(),
-                _ => panic!("unknown rms adaptor op {}", ev),
-            })
-        });
-        let r = match r {
-            None => r_panic(),
-            Some(f) => r_val(enc_frame(&f)),
-        };
-        out.ev(ev, a, r, json!({}), h);
+        let i = inst(op, "i");
+        if i >= insts.len() || insts[i].is_none() {
+            out.ev(ev, json!({"i": i, "z": 0}), r_panic(), json!({}), [0, 0, 0]);
+            continue;
+        }
+        let unit = |ok: bool| if ok { r_unit() } else { r_panic() };
+        match ev {
+            "sig_next" | "sig_next_squared" => {
+                let x = dec_frame::<S, N>(&op["a"]["x"]);
+                offer(&queue, x);
+                let (r, h, _) = measured(|| {
+                    catch(|| match insts[i].as_mut().unwrap() {
+                        RmsInst::Sig(s) if ev == "sig_next" => s.next(),
+                        RmsInst::Sig(s) => s.next_squared(),
+                        _ => panic!("{}: instance {} is not the adaptor", ev, i),
+                    })
+                });
+                out.ev(ev, json!({"i": i, "x": enc_frame(&x)}), ret_json::<S, N>(r.map(Some)), json!({}), h);
+            }
+            "sig_clone" | "rms_clone" => {
+                let j = insts.len();
+                let (c, h, _) = measured(|| {
+                    catch(|| match (insts[i].as_ref().unwrap(), ev) {
+                        (RmsInst::Sig(s), "sig_clone") => RmsInst::Sig(s.clone()),
+                        (RmsInst::Direct(d), "rms_clone") => RmsInst::Direct(d.clone()),
+                        _ => panic!("{}: wrong kind of instance {}", ev, i),
+                    })
+                });
+                let o = match &c {
+                    Some(RmsInst::Direct(d)) => match catch(|| (d.window_frames(), d.current())) {
+                        Some((wf, cur)) => json!({"ok":true,"wf":wf,"cur":enc_frame(&cur)}),
+                        None => json!({"ok":false,"wf":0,"cur":[]}),
+                    },
+                    _ => json!({}),
+                };
+                let r = unit(c.is_some());
+                insts.push(c);
+                out.ev(ev, json!({"i": i, "j": j}), r, o, h);
+            }
+            "sig_move" | "rms_move" => {
+                let taken = insts[i].take().unwrap();
+                let (m, h, _) = measured(|| {
+                    catch(|| match (taken, ev) {
+                        (RmsInst::Sig(s), "sig_move") => RmsInst::Sig(relocate(s)),
+                        (RmsInst::Direct(d), "rms_move") => RmsInst::Direct(relocate(d)),
+                        _ => panic!("{}: wrong kind of instance {}", ev, i),
+                    })
+                });
+                let r = unit(m.is_some());
+                insts[i] = m;
+                out.ev(ev, json!({"i": i}), r, json!({}), h);
+            }
+            "sig_parts" => {
+                let taken = insts[i].take().unwrap();
+                let (m, h, _) = measured(|| {
+                    catch(|| match taken {
+                        RmsInst::Sig(s) => RmsInst::Direct(s.into_parts().1),
+                        _ => panic!("{}: instance {} is not the adaptor", ev, i),
+                    })
+                });
+                let r = unit(m.is_some());
+                insts[i] = m;
+                out.ev(ev, json!({"i": i}), r, json!({}), h);
+            }
+            _ => match insts[i].as_mut().unwrap() {
+                RmsInst::Direct(rms) => {
+                    let (a, r, h) = direct_call::<S, St, N>(rms, ev, op);
+                    out.ev(ev, with_i(a, i), ret_json::<S, N>(r), json!({}), h);
+                }
+                RmsInst::Sig(_) => out.ev(ev, json!({"i": i, "z": 0}), r_panic(), json!({}), [0, 0, 0]),
+            },
+        }
+    }
+}
+fn rms_signal_any<S, const N: usize>(out: &mut Out, reset: &Value, ops: &[Value], build: &str)
+where
+    S: Fmt,
+    S::Float: Fmt,
+{
+    match reset["cfg"]["store"].as_str().unwrap_or("vec") {
+        "vec" => rms_signal::<S, Vec<FF<S, N>>, N>(out, reset, ops, build, |n| Fixed::from(eq_window::<S, N>(n))),
+        "box" => rms_signal::<S, Box<[FF<S, N>]>, N>(out, reset, ops, build, |n| Fixed::from(eq_window::<S, N>(n).into_boxed_slice())),
+        s => panic!("rms adaptor: unsupported ring storage {}", s),
     }
 }
 
@@ -80,9 +227,9 @@ fn rms_exec(out: &mut Out, ex: &[Value]) {
     let fmt = cfg["fmt"].as_str().unwrap().to_string();
     let ch = cfg["ch"].as_u64().unwrap();
     if cfg["via"].as_str().unwrap_or("direct") == "signal" {
-        rms_dispatch!(rms_signal, fmt.as_str(), ch, (out, &ex[0], &ex[1..], "std"))
+        rms_dispatch!(rms_signal_any, fmt.as_str(), ch, (out, &ex[0], &ex[1..], "std"))
     } else {
-        rms_dispatch!(rms_direct, fmt.as_str(), ch, (out, &ex[0], &ex[1..], "std"))
+        rms_dispatch!(rms_direct_any, fmt.as_str(), ch, (out, &ex[0], &ex[1..], "std"))
     }
 }
 
@@ -100,14 +247,19 @@ where
     }
     for op in ops {
         let kind = op["a"]["kind"].as_str().unwrap();
+        // by = "fn": the free functions; "trait": the Rectifier implementations FullWave / PositiveHalfWave / NegativeHalfWave
+        let by = op["a"]["by"].as_str().unwrap_or("fn");
         let x = dec_frame::<S, N>(&op["a"]["x"]);
-        let a = json!({"kind": kind, "x": enc_frame(&x)});
+        let a = json!({"kind": kind, "by": by, "x": enc_frame(&x)});
         let (r, h, _) = measured(|| {
-            catch(|| match kind {
-                "full" => R::Signed(peak::full_wave(x)),
-                "pos" => R::Own(peak::positive_half_wave(x)),
-                "neg" => R::Own(peak::negative_half_wave(x)),
-                _ => panic!("unknown rectifier {}", kind),
+            catch(|| match (kind, by) {
+                ("full", "fn") => R::Signed(peak::full_wave(x)),
+                ("pos", "fn") => R::Own(peak::positive_half_wave(x)),
+                ("neg", "fn") => R::Own(peak::negative_half_wave(x)),
+                ("full", "trait") => R::Signed(peak::FullWave.rectify(x)),
+                ("pos", "trait") => R::Own(peak::PositiveHalfWave.rectify(x)),
+                ("neg", "trait") => R::Own(peak::NegativeHalfWave.rectify(x)),
+                _ => panic!("unknown rectifier {} by {}", kind, by),
             })
         });
         let r = match r {
@@ -156,51 +308,66 @@ fn flag(v: &Value) -> Value {
     json!(v.as_u64().unwrap_or(0))
 }
 
-fn env_run<S, OS, D, const N: usize>(
-    out: &mut Out,
-    reset: &Value,
-    ops: &[Value],
-    make: impl FnOnce(f32, f32) -> Detector<[S; N], D>,
-    mut shadow: impl FnMut([S; N]) -> [OS; N],
-) where
+enum EnvInst<F: Frame, D: Detect<F>> {
+    Direct(Detector<F, D>),
+    Sig(DetectEnvelope<Source<F>, D>),
+}
+
+/// One execution of the envelope follower.  It owns a growing list of detector INSTANCES: instance 0 is
+/// built by the header (bare `Detector`, or on the `detect_envelope` adaptor when cfg.via = "signal");
+///   env_clone / env_sig_clone {i, j}   instance j = `Clone` of the detector / of the adaptor i
+///   env_move / env_sig_move {i}        instance i is moved to another place in memory (through a Box)
+///   env_wrap {i}                       the bare detector i is put on the adaptor (`detect_envelope`)
+///   env_sig_parts {i}                  the adaptor i is taken apart (`into_parts`), its detector goes on
+///   env_next / env_sig_next {i, x},  env_set / env_sig_set {i, which, tq, nz}
+/// (a stimulus may say env_flip {i}: env_wrap or env_sig_parts, whichever applies to the instance)
+/// Every event names its instance (`a.i`, 0 when absent).  The detected value is not visible through the
+/// detector: every instance has a shadow detection of the driver (rectifier function / a second Rms fed
+/// the same frames, cloned together with the instance) that is logged next to the output.
+fn env_run<S, OS, D, Sh, const N: usize>(out: &mut Out, reset: &Value, ops: &[Value], make: impl FnOnce(f32, f32) -> Detector<[S; N], D>, shadow: Sh)
+where
     S: Fmt,
     OS: Fmt,
-    D: Detect<[S; N], Output = [OS; N]>,
+    D: Detect<[S; N], Output = [OS; N]> + Clone,
+    Sh: FnMut([S; N]) -> [OS; N] + Clone,
 {
-    // the logged header always carries nza / nzr (negative-zero attack / release time) and srclen (-1 = none)
+    // the logged header always carries nza / nzr (negative-zero attack / release time), srclen (-1 = none),
+    // src (source signal of an adaptor run), ctor (constructor entry point) and store (ring storage of an RMS detector)
     let mut cfg = reset["cfg"].clone();
     cfg["nza"] = flag(&cfg["nza"]);
     cfg["nzr"] = flag(&cfg["nzr"]);
     let srclen = cfg["srclen"].as_u64();
     cfg["srclen"] = json!(srclen.map(|v| v as i64).unwrap_or(-1));
+    cfg["src"] = json!(cfg["src"].as_str().unwrap_or("iter"));
+    cfg["ctor"] = json!(cfg["ctor"].as_str().unwrap_or("named"));
+    cfg["store"] = json!(cfg["store"].as_str().unwrap_or("vec"));
     let via_signal = cfg["via"].as_str().unwrap_or("direct") == "signal";
+    let gen = cfg["src"] == "gen";
     let (af, rf) = (frames_of(&cfg["attack"], &cfg["nza"]), frames_of(&cfg["release"], &cfg["nzr"]));
     // what is logged is what was passed: the flag is 1 exactly when the time handed over is -0.0
     cfg["nza"] = json!(is_neg_zero(af) as u64);
     cfg["nzr"] = json!(is_neg_zero(rf) as u64);
     let hints = json!({"ok": true, "ga": f32f(hint(af)), "gr": f32f(hint(rf))});
-    let frames: Vec<Option<[S; N]>> = ops.iter().map(|op| op["a"].get("x").map(|v| dec_frame::<S, N>(v))).collect();
-    enum Run<A, B> {
-        Direct(A),
-        Sig(B),
-    }
-    // adaptor runs: the source signal yields the frames of the env_sig_next events in order.
+    // adaptor runs over an Iter source: it yields the frames of instance 0's env_sig_next events in order.
     // cfg.srclen >= 0 cuts the source short: later calls read past its end, where a finite signal
     // yields equilibrium -- the stimulus puts equilibrium frames into those events (they are what
     // is logged as the call's input and what the shadow detection sees)
-    let mut src: Vec<[S; N]> = frames.iter().filter_map(|f| *f).collect();
+    let mut src: Vec<[S; N]> = iter_frames(ops, "env_sig_parts", |v| dec_frame::<S, N>(v));
     if let (true, Some(sl)) = (via_signal, srclen) {
         src.truncate(sl as usize);
     }
+    let queue: Queue<[S; N]> = new_queue();
+    let q0 = queue.clone();
     let built = catch(move || {
         let det = make(af, rf);
         if via_signal {
-            Run::Sig(signal::from_iter(src.into_iter()).detect_envelope(det))
+            let s = if gen { Source::Feed(q0) } else { Source::Iter(signal::from_iter(src.into_iter())) };
+            EnvInst::Sig(s.detect_envelope(det))
         } else {
-            Run::Direct(det)
+            EnvInst::Direct(det)
         }
     });
-    let mut run = match built {
+    let first = match built {
         None => {
             out.line(&json!({"ev":"reset","comp":"env","cfg":cfg,"r":r_panic(),"o":{"ok":false}}));
             return;
@@ -208,20 +375,30 @@ fn env_run<S, OS, D, const N: usize>(
         Some(r) => r,
     };
     out.line(&json!({"ev":"reset","comp":"env","cfg":cfg,"r":r_unit(),"o":hints}));
-    for (op, x) in ops.iter().zip(frames.into_iter()) {
+    let mut insts: Vec<Option<(EnvInst<[S; N], D>, Sh)>> = vec![Some((first, shadow))];
+    for op in ops {
         let ev = op["ev"].as_str().unwrap();
-        match x {
-            Some(x) => {
+        let i = inst(op, "i");
+        if i >= insts.len() || insts[i].is_none() {
+            out.ev(ev, json!({"i": i}), r_panic(), json!({}), [0, 0, 0]);
+            continue;
+        }
+        let unit = |ok: bool| if ok { r_unit() } else { r_panic() };
+        // events are named after what the instance IS (bare detector / adaptor), whatever the stimulus called them
+        let sig = matches!(insts[i].as_ref().unwrap().0, EnvInst::Sig(_));
+        let name = |base: &str| if sig { format!("env_sig_{}", base) } else { format!("env_{}", base) };
+        match ev {
+            "env_next" | "env_sig_next" => {
+                let x = dec_frame::<S, N>(&op["a"]["x"]);
+                offer(&queue, x);
+                let (inst, sh) = insts[i].as_mut().unwrap();
                 let (r, h, _) = measured(|| {
-                    catch(|| match &mut run {
-                        Run::Direct(d) => d.next(x),
-                        Run::Sig(s) => s.next(),
+                    catch(|| match inst {
+                        EnvInst::Direct(d) => d.next(x),
+                        EnvInst::Sig(s) => s.next(),
                     })
                 });
-                // the detected value is not visible through the detector: the same detection applied
-                // by the driver (rectifier function / a second Rms fed the same frames)
-                let det = catch(|| shadow(x));
-                let o = match det {
+                let o = match catch(|| sh(x)) {
                     Some(d) => json!({"det": enc_frame(&d)}),
                     None => json!({"det": []}),
                 };
@@ -229,42 +406,155 @@ fn env_run<S, OS, D, const N: usize>(
                     None => r_panic(),
                     Some(f) => r_val(enc_frame(&f)),
                 };
-                out.ev(ev, json!({"x": enc_frame(&x)}), r, o, h);
+                out.ev(&name("next"), json!({"i": i, "x": enc_frame(&x)}), r, o, h);
             }
-            None => {
+            "env_set" | "env_sig_set" => {
                 let which = op["a"]["which"].as_str().unwrap();
                 let mut a = op["a"].clone();
+                a["i"] = json!(i);
                 a["nz"] = flag(&a["nz"]);
                 let fr = frames_of(&a["tq"], &a["nz"]);
                 a["nz"] = json!(is_neg_zero(fr) as u64);
+                let inst = &mut insts[i].as_mut().unwrap().0;
                 let (r, h, _) = measured(|| {
-                    catch(|| match (&mut run, which) {
-                        (Run::Direct(d), "attack") => d.set_attack_frames(fr),
-                        (Run::Direct(d), "release") => d.set_release_frames(fr),
-                        (Run::Sig(s), "attack") => s.set_attack_frames(fr),
-                        (Run::Sig(s), "release") => s.set_release_frames(fr),
+                    catch(|| match (inst, which) {
+                        (EnvInst::Direct(d), "attack") => d.set_attack_frames(fr),
+                        (EnvInst::Direct(d), "release") => d.set_release_frames(fr),
+                        (EnvInst::Sig(s), "attack") => s.set_attack_frames(fr),
+                        (EnvInst::Sig(s), "release") => s.set_release_frames(fr),
                         _ => panic!("unknown setter {}", which),
                     })
                 });
-                let r = if r.is_some() { r_unit() } else { r_panic() };
-                out.ev(ev, a, r, json!({"hint": f32f(hint(fr))}), h);
+                out.ev(&name("set"), a, unit(r.is_some()), json!({"hint": f32f(hint(fr))}), h);
             }
+            "env_clone" | "env_sig_clone" => {
+                let j = insts.len();
+                let (inst, sh) = insts[i].as_ref().unwrap();
+                let (c, h, _) = measured(|| {
+                    catch(|| match inst {
+                        EnvInst::Direct(d) => EnvInst::Direct(d.clone()),
+                        EnvInst::Sig(s) => EnvInst::Sig(s.clone()),
+                    })
+                });
+                let sh2 = sh.clone();
+                let r = unit(c.is_some());
+                insts.push(c.map(|c| (c, sh2)));
+                out.ev(&name("clone"), json!({"i": i, "j": j}), r, json!({}), h);
+            }
+            "env_move" | "env_sig_move" | "env_wrap" | "env_sig_parts" | "env_flip" => {
+                let (inst, sh) = insts[i].take().unwrap();
+                let q = queue.clone();
+                // env_flip (stimuli only): wrap a bare detector, take an adaptor apart -- logged under the real name
+                let ev = match ev {
+                    "env_flip" if sig => "env_sig_parts",
+                    "env_flip" => "env_wrap",
+                    e => e,
+                };
+                let (label, want_sig) = match ev {
+                    "env_wrap" => ("env_wrap".to_string(), false),
+                    "env_sig_parts" => ("env_sig_parts".to_string(), true),
+                    _ => (name("move"), sig),
+                };
+                let (m, h, _) = measured(|| {
+                    catch(|| {
+                        if want_sig != sig {
+                            panic!("{}: wrong kind of instance {}", ev, i);
+                        }
+                        match (inst, ev) {
+                            (EnvInst::Direct(d), "env_wrap") => EnvInst::Sig(Source::Feed(q).detect_envelope(d)),
+                            (EnvInst::Sig(s), "env_sig_parts") => EnvInst::Direct(s.into_parts().1),
+                            (EnvInst::Direct(d), _) => EnvInst::Direct(relocate(d)),
+                            (EnvInst::Sig(s), _) => EnvInst::Sig(relocate(s)),
+                        }
+                    })
+                });
+                let r = unit(m.is_some());
+                insts[i] = m.map(|m| (m, sh));
+                out.ev(&label, json!({"i": i}), r, json!({}), h);
+            }
+            _ => panic!("unknown envelope op {}", ev),
         }
     }
 }
 
+/// constructor entry points (cfg.ctor) of a peak detector; all build the same detector:
+///   "named" Detector::peak / peak_positive_half_wave / peak_negative_half_wave
+///   "new"   Detector::new(Peak::full_wave() / positive_half_wave() / negative_half_wave(), ..)
+///   "rect"  Detector::peak_from_rectifier(FullWave / PositiveHalfWave / NegativeHalfWave, ..)
+///   "from"  Detector::new(Peak::from(rectifier), ..)
+fn ctor_of(reset: &Value) -> String {
+    reset["cfg"]["ctor"].as_str().unwrap_or("named").to_string()
+}
 fn env_full<S, const N: usize>(out: &mut Out, reset: &Value, ops: &[Value])
 where
     S: Fmt,
     S::Signed: Fmt,
 {
-    env_run::<S, S::Signed, _, N>(out, reset, ops, |a, r| Detector::peak(a, r), |f| peak::full_wave(f))
+    let c = ctor_of(reset);
+    env_run::<S, S::Signed, _, _, N>(
+        out,
+        reset,
+        ops,
+        move |a, r| match c.as_str() {
+            "named" => Detector::peak(a, r),
+            "new" => Detector::new(Peak::full_wave(), a, r),
+            "rect" => Detector::peak_from_rectifier(peak::FullWave, a, r),
+            "from" => Detector::new(Peak::from(peak::FullWave), a, r),
+            c => panic!("unknown constructor {}", c),
+        },
+        |f| peak::full_wave(f),
+    )
 }
 fn env_pos<S: Fmt, const N: usize>(out: &mut Out, reset: &Value, ops: &[Value]) {
-    env_run::<S, S, _, N>(out, reset, ops, |a, r| Detector::peak_positive_half_wave(a, r), |f| peak::positive_half_wave(f))
+    let c = ctor_of(reset);
+    env_run::<S, S, _, _, N>(
+        out,
+        reset,
+        ops,
+        move |a, r| match c.as_str() {
+            "named" => Detector::peak_positive_half_wave(a, r),
+            "new" => Detector::new(Peak::positive_half_wave(), a, r),
+            "rect" => Detector::peak_from_rectifier(peak::PositiveHalfWave, a, r),
+            "from" => Detector::new(Peak::from(peak::PositiveHalfWave), a, r),
+            c => panic!("unknown constructor {}", c),
+        },
+        |f| peak::positive_half_wave(f),
+    )
 }
 fn env_neg<S: Fmt, const N: usize>(out: &mut Out, reset: &Value, ops: &[Value]) {
-    env_run::<S, S, _, N>(out, reset, ops, |a, r| Detector::peak_negative_half_wave(a, r), |f| peak::negative_half_wave(f))
+    let c = ctor_of(reset);
+    env_run::<S, S, _, _, N>(
+        out,
+        reset,
+        ops,
+        move |a, r| match c.as_str() {
+            "named" => Detector::peak_negative_half_wave(a, r),
+            "new" => Detector::new(Peak::negative_half_wave(), a, r),
+            "rect" => Detector::peak_from_rectifier(peak::NegativeHalfWave, a, r),
+            "from" => Detector::new(Peak::from(peak::NegativeHalfWave), a, r),
+            c => panic!("unknown constructor {}", c),
+        },
+        |f| peak::negative_half_wave(f),
+    )
+}
+/// RMS detection: "named" = Detector::rms(ring buffer, ..), anything else = Detector::new(Rms::new(ring buffer), ..);
+/// cfg.store = "vec" | "box" is the ring storage
+fn env_rms_st<S, St, const N: usize>(out: &mut Out, reset: &Value, ops: &[Value], win: impl Fn() -> Fixed<St>)
+where
+    S: Fmt,
+    S::Float: Fmt,
+    St: Slice<Element = FF<S, N>> + SliceMut + Clone,
+{
+    let c = ctor_of(reset);
+    let mut sh = Rms::<[S; N], St>::new(win());
+    let w = win();
+    env_run::<S, S::Float, _, _, N>(
+        out,
+        reset,
+        ops,
+        move |a, r| if c == "named" { Detector::rms(w, a, r) } else { Detector::new(Rms::new(w), a, r) },
+        move |f| sh.next(f),
+    )
 }
 fn env_rms<S, const N: usize>(out: &mut Out, reset: &Value, ops: &[Value])
 where
@@ -272,9 +562,11 @@ where
     S::Float: Fmt,
 {
     let n = reset["cfg"]["n"].as_u64().unwrap() as usize;
-    let win = move || Fixed::from(vec![<[S::Float; N] as dasp_frame::Frame>::EQUILIBRIUM; n]);
-    let mut sh = Rms::<[S; N], Vec<[S::Float; N]>>::new(win());
-    env_run::<S, S::Float, _, N>(out, reset, ops, move |a, r| Detector::rms(win(), a, r), move |f| sh.next(f))
+    match reset["cfg"]["store"].as_str().unwrap_or("vec") {
+        "vec" => env_rms_st::<S, Vec<FF<S, N>>, N>(out, reset, ops, || Fixed::from(eq_window::<S, N>(n))),
+        "box" => env_rms_st::<S, Box<[FF<S, N>]>, N>(out, reset, ops, || Fixed::from(eq_window::<S, N>(n).into_boxed_slice())),
+        s => panic!("rms detector: unsupported ring storage {}", s),
+    }
 }
 
 fn env_exec(out: &mut Out, ex: &[Value]) {
@@ -355,7 +647,7 @@ fn frame(rng: &mut Rng, fmt: &str, ch: usize, loud: i64, exact: bool, avoid_min:
     )
 }
 
-fn gen_rms(rng: &mut Rng, thorough: bool, execs: &mut Vec<Vec<Value>>) {
+fn gen_rms(rng: &mut Rng, crng: &mut Rng, thorough: bool, execs: &mut Vec<Vec<Value>>) {
     let fmts = ["f32", "f64", "i8", "i16", "i32", "u16"];
     // (window, how many executions): every history is 50 * window frames long
     let plan: &[(usize, usize)] = if thorough {
@@ -377,49 +669,96 @@ fn gen_rms(rng: &mut Rng, thorough: bool, execs: &mut Vec<Vec<Value>>) {
             let total = 50 * n;
             // the adaptor over a finite source that is read past its end (every other adaptor run)
             let srclen = if via == "signal" && k % 8 == 4 { Some(rng.below(total as u64 * 3 / 4 + 1) as usize) } else { None };
+            // (choices that are new in round 4 draw from `crng`, so that `rng` yields the values it always did)
+            // clone scenario (every other execution that is not a finite-source run): the detector / the adaptor is
+            // cloned at random positions (up to 3 instances), every later operation goes to a random instance --
+            // so the copies see DIFFERENT inputs --, instances are moved, adaptors taken apart (sig_parts)
+            let cloning = srclen.is_none() && k % 2 == 0;
+            // ring storage handed to Rms::new / .rms(): Vec, Box<[T]>, [T; n] (n <= 4), &mut [T] (cannot be cloned)
+            let store = if via == "signal" {
+                *crng.pick(&["vec", "box"])
+            } else {
+                let mut c = vec!["vec", "box"];
+                if n <= 4 {
+                    c.push("array");
+                }
+                if !cloning {
+                    c.push("slice");
+                    c.push("slice");
+                }
+                *crng.pick(&c)
+            };
+            let src = if cloning { "gen" } else { "iter" };
             let mut ex = vec![match srclen {
-                Some(sl) => json!({"ev":"reset","comp":"rms","cfg":{"n":n,"fmt":fmt,"ch":ch,"via":via,"srclen":sl}}),
-                None => json!({"ev":"reset","comp":"rms","cfg":{"n":n,"fmt":fmt,"ch":ch,"via":via}}),
+                Some(sl) => json!({"ev":"reset","comp":"rms","cfg":{"n":n,"fmt":fmt,"ch":ch,"via":via,"srclen":sl,"store":store,"src":src}}),
+                None => json!({"ev":"reset","comp":"rms","cfg":{"n":n,"fmt":fmt,"ch":ch,"via":via,"store":store,"src":src}}),
             }];
+            let mut vias: Vec<&str> = vec![via]; // what each instance is at the moment
             let mut loud = 0i64;
             for i in 0..total {
                 if let Some(sl) = srclen {
                     if i >= sl {
                         let z = Value::Array((0..ch).map(|_| json!({"d": [0, 4]})).collect());
-                        ex.push(json!({"ev": if rng.chance(1, 2) {"sig_next"} else {"sig_next_squared"}, "a": {"x": z}}));
+                        ex.push(json!({"ev": if rng.chance(1, 2) {"sig_next"} else {"sig_next_squared"}, "a": {"i": 0, "x": z}}));
                         continue;
                     }
                 }
+                if cloning {
+                    let every = (total as u64 / 3).max(2);
+                    if vias.len() < 3 && crng.chance(1, every) {
+                        let s = crng.below(vias.len() as u64) as usize;
+                        ex.push(json!({"ev": if vias[s] == "signal" {"sig_clone"} else {"rms_clone"}, "a": {"i": s, "j": vias.len()}}));
+                        vias.push(vias[s]);
+                    }
+                    if crng.chance(1, every) {
+                        let s = crng.below(vias.len() as u64) as usize;
+                        ex.push(json!({"ev": if vias[s] == "signal" {"sig_move"} else {"rms_move"}, "a": {"i": s}}));
+                    }
+                    if crng.chance(1, 2 * every) {
+                        let s = crng.below(vias.len() as u64) as usize;
+                        if vias[s] == "signal" {
+                            ex.push(json!({"ev": "sig_parts", "a": {"i": s}}));
+                            vias[s] = "direct";
+                        }
+                    }
+                }
+                let t = if vias.len() > 1 { crng.below(vias.len() as u64) as usize } else { 0 };
                 // passages: mostly normal level, sometimes a loud burst or a quiet stretch
                 if bursty && rng.chance(1, (2 * n as u64).max(8)) {
                     loud = *rng.pick(&[0, 0, 0, 10, 12, -12, -6, 4]);
                 }
                 let x = frame(rng, fmt, ch, loud, exact, false);
                 let p = rng.below(100);
-                if via == "signal" {
-                    ex.push(json!({"ev": if p < 60 {"sig_next"} else {"sig_next_squared"}, "a": {"x": x}}));
+                if vias[t] == "signal" {
+                    ex.push(json!({"ev": if p < 60 {"sig_next"} else {"sig_next_squared"}, "a": {"i": t, "x": x}}));
                 } else if p < 55 {
-                    ex.push(json!({"ev":"next","a":{"x":x}}));
+                    ex.push(json!({"ev":"next","a":{"i":t,"x":x}}));
                 } else if p < 90 {
-                    ex.push(json!({"ev":"next_squared","a":{"x":x}}));
+                    ex.push(json!({"ev":"next_squared","a":{"i":t,"x":x}}));
                 } else if p < 97 {
-                    ex.push(json!({"ev":"current","a":{"z":0}}));
+                    ex.push(json!({"ev":"current","a":{"i":t,"z":0}}));
                 } else if p < 99 || n > 8 {
-                    ex.push(json!({"ev":"next","a":{"x":x}}));
+                    ex.push(json!({"ev":"next","a":{"i":t,"x":x}}));
                 } else {
-                    ex.push(json!({"ev":"rms_reset","a":{"z":0}}));
-                    ex.push(json!({"ev":"current","a":{"z":0}}));
+                    ex.push(json!({"ev":"rms_reset","a":{"i":t,"z":0}}));
+                    ex.push(json!({"ev":"current","a":{"i":t,"z":0}}));
                 }
             }
             if via == "direct" {
                 // a reset deep into the history, then a fresh window's worth of frames
-                ex.push(json!({"ev":"rms_reset","a":{"z":0}}));
-                ex.push(json!({"ev":"current","a":{"z":0}}));
+                ex.push(json!({"ev":"rms_reset","a":{"i":0,"z":0}}));
+                ex.push(json!({"ev":"current","a":{"i":0,"z":0}}));
                 for _ in 0..(n + 2) {
                     let x = frame(rng, fmt, ch, 0, exact, false);
-                    ex.push(json!({"ev": if rng.chance(1, 2) {"next"} else {"next_squared"}, "a": {"x": x}}));
+                    ex.push(json!({"ev": if rng.chance(1, 2) {"next"} else {"next_squared"}, "a": {"i": 0, "x": x}}));
                 }
-                ex.push(json!({"ev":"current","a":{"z":0}}));
+                ex.push(json!({"ev":"current","a":{"i":0,"z":0}}));
+            }
+            // the copies that were not reset still hold their own windows
+            for (s, v) in vias.iter().enumerate().skip(1) {
+                if *v == "direct" {
+                    ex.push(json!({"ev":"current","a":{"i":s,"z":0}}));
+                }
             }
             execs.push(ex);
         }
@@ -463,7 +802,7 @@ fn gen_rms_absorb(rng: &mut Rng, thorough: bool, execs: &mut Vec<Vec<Value>>) {
     }
 }
 
-fn gen_env(rng: &mut Rng, thorough: bool, execs: &mut Vec<Vec<Value>>) {
+fn gen_env(rng: &mut Rng, crng: &mut Rng, thorough: bool, execs: &mut Vec<Vec<Value>>) {
     // rectifiers: random values of every width on all 14 formats x 1..4 channels
     let all = ["i8", "i16", "i24", "i32", "i48", "i64", "u8", "u16", "u24", "u32", "u48", "u64", "f32", "f64"];
     let per = if thorough { 60 } else { 12 };
@@ -473,7 +812,9 @@ fn gen_env(rng: &mut Rng, thorough: bool, execs: &mut Vec<Vec<Value>>) {
             for _ in 0..per {
                 let loud = *rng.pick(&[0, 0, 6, -6]);
                 let x = frame(rng, fmt, ch, loud, false, false);
-                ex.push(json!({"ev":"rect","a":{"kind": *rng.pick(&["full","pos","neg"]), "x": x}}));
+                // the free functions, or the Rectifier implementations FullWave / PositiveHalfWave / NegativeHalfWave
+                let by = *crng.pick(&["fn", "trait"]);
+                ex.push(json!({"ev":"rect","a":{"kind": *rng.pick(&["full","pos","neg"]), "by": by, "x": x}}));
             }
             execs.push(ex);
         }
@@ -518,9 +859,18 @@ fn gen_env(rng: &mut Rng, thorough: bool, execs: &mut Vec<Vec<Value>>) {
             tr = times[1 + rng.below(4) as usize];
         }
         let (nza, nzr) = (nz_of(rng, ta), nz_of(rng, tr));
+        // (choices that are new in round 4 draw from `crng`, so that `rng` yields the values it always did)
+        // clone scenario (every other execution outside the two scenarios above): the detector / the adaptor is cloned
+        // at random positions (up to 3 instances), every later frame and setter goes to a random instance -- the copies
+        // see DIFFERENT inputs and settings --, instances are moved, put on the adaptor and taken off it again
+        let cloning = zero_phase.is_none() && srclen.is_none() && k % 2 == 0;
+        let ctor = *crng.pick(&["named", "new", "rect", "from"]);
+        let store = *crng.pick(&["vec", "box"]);
+        let mut live = 1usize;
         let mut ex = vec![json!({"ev":"reset","comp":"env","cfg":{"fmt":fmt,"ch":ch,"det":det,"n":n,
                                  "attack":ta,"release":tr,"nza":nza,"nzr":nzr,"via":via,
-                                 "srclen": srclen.map(|v| v as i64).unwrap_or(-1)}})];
+                                 "srclen": srclen.map(|v| v as i64).unwrap_or(-1),
+                                 "src": if cloning {"gen"} else {"iter"}, "ctor": ctor, "store": store}})];
         let set_ev = if via == "signal" { "env_sig_set" } else { "env_set" };
         let next_ev = if via == "signal" { "env_sig_next" } else { "env_next" };
         // input shapes: rising ramp, falling ramp, constant stretches, noise
@@ -528,6 +878,21 @@ fn gen_env(rng: &mut Rng, thorough: bool, execs: &mut Vec<Vec<Value>>) {
         let mut level: Vec<f64> = (0..ch).map(|_| if shape == 1 { 0.9 } else { 0.02 }).collect();
         let mut i = 0;
         while i < len {
+            if cloning {
+                let every = (len as u64 / 3).max(2);
+                if live < 3 && crng.chance(1, every) {
+                    ex.push(json!({"ev": "env_clone", "a": {"i": crng.below(live as u64), "j": live}}));
+                    live += 1;
+                }
+                if crng.chance(1, every) {
+                    ex.push(json!({"ev": "env_move", "a": {"i": crng.below(live as u64)}}));
+                }
+                if crng.chance(1, every) {
+                    ex.push(json!({"ev": "env_flip", "a": {"i": crng.below(live as u64)}}));
+                }
+            }
+            // the instance this step's setter / frame goes to
+            let t = if live > 1 { crng.below(live as u64) } else { 0 };
             let in_zero = zero_phase.map_or(false, |(a, b)| a <= i && i < b);
             if let Some((a, b)) = zero_phase {
                 if i == a && a > 0 {
@@ -535,7 +900,7 @@ fn gen_env(rng: &mut Rng, thorough: bool, execs: &mut Vec<Vec<Value>>) {
                     let first = rng.below(2) as usize;
                     for w in [first, 1 - first] {
                         let which = ["attack", "release"][w];
-                        ex.push(json!({"ev": set_ev, "a": {"which": which, "tq": 0, "nz": nz_of(rng, 0)}}));
+                        ex.push(json!({"ev": set_ev, "a": {"i": 0, "which": which, "tq": 0, "nz": nz_of(rng, 0)}}));
                     }
                 }
                 if i == b {
@@ -544,7 +909,7 @@ fn gen_env(rng: &mut Rng, thorough: bool, execs: &mut Vec<Vec<Value>>) {
                     let first = rng.below(2) as usize;
                     for w in [first, 1 - first] {
                         let which = ["attack", "release"][w];
-                        ex.push(json!({"ev": set_ev, "a": {"which": which, "tq": times[1 + rng.below(6) as usize], "nz": 0}}));
+                        ex.push(json!({"ev": set_ev, "a": {"i": 0, "which": which, "tq": times[1 + rng.below(6) as usize], "nz": 0}}));
                     }
                 }
             }
@@ -553,7 +918,7 @@ fn gen_env(rng: &mut Rng, thorough: bool, execs: &mut Vec<Vec<Value>>) {
                 let which = *rng.pick(&["attack", "release"]);
                 // a finite-source run keeps its release time non-zero (the tail is the point of it)
                 let tq = if srclen.is_some() && which == "release" { times[1 + rng.below(6) as usize] } else { times[rng.below(7) as usize] };
-                ex.push(json!({"ev": set_ev, "a": {"which": which, "tq": tq, "nz": nz_of(rng, tq)}}));
+                ex.push(json!({"ev": set_ev, "a": {"i": t, "which": which, "tq": tq, "nz": nz_of(rng, tq)}}));
             }
             if srclen.map_or(false, |sl| i >= sl) {
                 // past the end of the source: equilibrium
@@ -562,7 +927,7 @@ fn gen_env(rng: &mut Rng, thorough: bool, execs: &mut Vec<Vec<Value>>) {
                     "f64" => f64f(0.0),
                     _ => big(0),
                 };
-                ex.push(json!({"ev": next_ev, "a": {"x": Value::Array((0..ch).map(|_| z.clone()).collect())}}));
+                ex.push(json!({"ev": next_ev, "a": {"i": 0, "x": Value::Array((0..ch).map(|_| z.clone()).collect())}}));
                 i += 1;
                 continue;
             }
@@ -588,7 +953,7 @@ fn gen_env(rng: &mut Rng, thorough: bool, execs: &mut Vec<Vec<Value>>) {
                     }
                 })
                 .collect();
-            ex.push(json!({"ev": next_ev, "a": {"x": x}}));
+            ex.push(json!({"ev": next_ev, "a": {"i": t, "x": x}}));
             i += 1;
         }
         execs.push(ex);
@@ -606,11 +971,11 @@ fn main() {
             let only = args.get(5).map(|s| s.as_str()).unwrap_or("all");
             let mut execs = Vec::new();
             if only == "all" || only == "rms" {
-                gen_rms(&mut Rng::new(seed ^ 0x11), thorough, &mut execs);
+                gen_rms(&mut Rng::new(seed ^ 0x11), &mut Rng::new(seed ^ 0x1c11), thorough, &mut execs);
                 gen_rms_absorb(&mut Rng::new(seed ^ 0x13), thorough, &mut execs);
             }
             if only == "all" || only == "env" {
-                gen_env(&mut Rng::new(seed ^ 0x19), thorough, &mut execs);
+                gen_env(&mut Rng::new(seed ^ 0x19), &mut Rng::new(seed ^ 0x1c19), thorough, &mut execs);
             }
             write_stimuli(&c.a3, &execs);
         }
